@@ -705,6 +705,9 @@ func (x *fleetExec) concat(e engine.Event) {
 		if m.mkey != out.mkey || m.exact != out.exact {
 			return
 		}
+		if !out.model.FitsAfter(m.model.Count(), m.model.Gran()) {
+			return // the concatenation as a whole must stay inside the exactness budget too
+		}
 		out.data = append(out.data, m.data...)
 		out.model.MergeFrom(m.model)
 		out.parts += m.parts
